@@ -41,6 +41,11 @@ func oracleC05(period int, ops []muxOp, calls []muxCall) string {
 		if o.kind == opAdd && c.code == -1 && o.es.ElementaryPID != 0 && reservedPID(o.es.ElementaryPID) {
 			tainted[o.es.ElementaryPID&0x1fff] = true
 		}
+		if o.kind == opData && !muxDataInDomain(o.d) {
+			// outside the domain (S1: writer-internal adaptation field members set by the caller, nil PES or header,
+			// unsupported header): a rejected first packet may have consumed a counter value; the PID is not judged further
+			tainted[o.d.PID&0x1fff] = true
+		}
 		emitted := map[uint16]bool{}
 		if o.kind != opPacket { // a packet handed to WritePacket carries the caller's counter
 			pk, _ := tsPackets(c.bytes)
